@@ -454,7 +454,15 @@ pub mod details {
                 }
             };
 
-            storage.get().reserve_port(port_to_register.value(), msg)?;
+            if let Err(e) = storage.get().reserve_port(port_to_register.value(), msg) {
+                // Another instance attached between the creation of the storage and the
+                // reservation of the port. The storage must outlive this failed attempt,
+                // the last attached instance removes it.
+                if storage.has_ownership() {
+                    storage.release_ownership();
+                }
+                return Err(e);
+            }
 
             if storage.has_ownership() {
                 storage.release_ownership();
